@@ -34,17 +34,39 @@ impl Seq {
     }
 }
 
-/// `str::split`: `h` valid UTF-8, `d` valid UTF-8 (possibly empty); pieces as `[a, b)` byte ranges of `h`
-pub fn ref_split_seq(h: &[u8], d: &[u8]) -> Seq {
+/// `occ[i]` = the (non-empty) delimiter `d` occurs at byte `i` of `h`.
+/// Constant loop bounds (`h.len() <= H`, `d.len() <= D`) so that CBMC unrolls them exactly.
+pub fn occurrences<const H: usize, const D: usize>(h: &[u8], d: &[u8]) -> [bool; MAXP] {
+    let mut occ = [false; MAXP];
+    let mut i = 0;
+    while i < H {
+        let mut m = d.len() > 0 && i + d.len() <= h.len();
+        let mut j = 0;
+        while j < D {
+            if m && j < d.len() && h[i + j] != d[j] {
+                m = false;
+            }
+            j += 1;
+        }
+        occ[i] = m;
+        i += 1;
+    }
+    occ
+}
+
+/// `str::split`: `h` valid UTF-8 (`<= H` bytes), `d` valid UTF-8 (possibly empty); pieces as
+/// `[a, b)` byte ranges of `h`: cut at the first occurrence that starts at or after the end of
+/// the previous cut, i.e. the first occurrence inside the not-yet-split suffix.
+pub fn ref_split_seq<const H: usize>(h: &[u8], dl: usize, occ: &[bool; MAXP]) -> Seq {
     let mut q = Seq::new();
     let len = h.len();
-    if d.len() == 0 {
+    if dl == 0 {
         // an empty pattern matches at every char boundary, 0 and len included
         q.push(0, 0);
         let mut a = 0;
         let mut i = 1;
-        while i <= len {
-            if ref_boundary(h, i) {
+        while i <= H {
+            if i <= len && ref_boundary(h, i) {
                 q.push(a, i);
                 a = i;
             }
@@ -54,31 +76,29 @@ pub fn ref_split_seq(h: &[u8], d: &[u8]) -> Seq {
         return q;
     }
     let mut pos = 0;
-    loop {
-        match ref_find(&h[pos..], d) {
-            Some(i) => {
-                q.push(pos, pos + i);
-                pos = pos + i + d.len();
-            }
-            None => {
-                q.push(pos, len);
-                return q;
-            }
+    let mut i = 0;
+    while i < H {
+        if i < len && i >= pos && occ[i] {
+            q.push(pos, i);
+            pos = i + dl;
         }
+        i += 1;
     }
+    q.push(pos, len);
+    q
 }
 
-/// `str::rsplit`
-pub fn ref_rsplit_seq(h: &[u8], d: &[u8]) -> Seq {
+/// `str::rsplit`: cut at the last occurrence that lies inside the not-yet-split prefix
+pub fn ref_rsplit_seq<const H: usize>(h: &[u8], dl: usize, occ: &[bool; MAXP]) -> Seq {
     let mut q = Seq::new();
     let len = h.len();
-    if d.len() == 0 {
+    if dl == 0 {
         q.push(len, len);
         let mut b = len;
-        let mut i = len;
+        let mut i = H;
         while i > 0 {
             i -= 1;
-            if ref_boundary(h, i) {
+            if i < len && ref_boundary(h, i) {
                 q.push(i, b);
                 b = i;
             }
@@ -87,18 +107,16 @@ pub fn ref_rsplit_seq(h: &[u8], d: &[u8]) -> Seq {
         return q;
     }
     let mut end = len;
-    loop {
-        match ref_rfind(&h[..end], d) {
-            Some(i) => {
-                q.push(i + d.len(), end);
-                end = i;
-            }
-            None => {
-                q.push(0, end);
-                return q;
-            }
+    let mut i = H;
+    while i > 0 {
+        i -= 1;
+        if i + dl <= end && occ[i] {
+            q.push(i + dl, end);
+            end = i;
         }
     }
+    q.push(0, end);
+    q
 }
 
 /// number of pieces of the terminator variants: the final piece is dropped iff it is empty
@@ -120,21 +138,16 @@ pub fn piece_at(hb: &[u8], p: &str, a: usize, b: usize) -> bool {
 }
 
 /// the delimiter occurs at two overlapping positions of `h`
-pub fn overlapping_occurrences(h: &[u8], d: &[u8]) -> bool {
-    let mut occ = [false; MAXP];
+pub fn overlapping_occurrences(occ: &[bool; MAXP], dl: usize) -> bool {
     let mut i = 0;
-    while i < h.len() && i < MAXP {
-        occ[i] = ref_occurs_at(h, d, i);
-        i += 1;
-    }
-    let mut i = 0;
-    while i + 1 < MAXP {
-        if occ[i] && ((d.len() >= 2 && occ[i + 1]) || (d.len() >= 3 && i + 2 < MAXP && occ[i + 2])) {
-            return true;
+    let mut r = false;
+    while i + 2 < MAXP {
+        if occ[i] && ((dl >= 2 && occ[i + 1]) || (dl >= 3 && occ[i + 2])) {
+            r = true;
         }
         i += 1;
     }
-    false
+    r
 }
 
 /// Generates `fn $fname(s, it, hb, q, n, fwd) -> steps`: runs `it` to exhaustion; step `k` must
@@ -202,17 +215,17 @@ pub struct Facts {
     pub overlapping: bool,
 }
 
-fn facts(hb: &[u8], db: &[u8], q: &Seq, steps: usize) -> Facts {
+fn facts(hb: &[u8], dl: usize, occ: &[bool; MAXP], q: &Seq, steps: usize) -> Facts {
     Facts {
         hl: hb.len(),
-        dl: db.len(),
+        dl,
         n: q.n,
         steps,
         multibyte: hb.len() > 0 && hb[0] >= 0x80,
         empty_middle: q.n >= 3 && q.a[1] == q.b[1],
-        leading: db.len() > 0 && ref_occurs_at(hb, db, 0),
-        trailing: db.len() > 0 && hb.len() >= db.len() && ref_occurs_at(hb, db, hb.len() - db.len()),
-        overlapping: overlapping_occurrences(hb, db),
+        leading: occ[0],
+        trailing: dl > 0 && hb.len() >= dl && occ[hb.len() - dl],
+        overlapping: overlapping_occurrences(occ, dl),
     }
 }
 
@@ -224,49 +237,58 @@ pub enum Which {
     RSplitTerminator,
     /// `split(..).rev()` must be `rsplit(..)`, `split(..).next_back()` its first step
     SplitRev,
-    /// `rsplit(..).rev()` must be `split(..)`
+    /// `rsplit(..).rev()` must be `split(..)`, `rsplit(..).next_back()` its first step
     RSplitRev,
 }
 
 /// one body for both delimiter kinds: `d` is what konst gets, `db` its UTF-8 bytes
-fn run_one<'a, 'p, S: Src, P: Pattern<'p>>(s: &mut S, w: Which, h: &'a str, d: P, db: &[u8]) -> Facts {
+/// (`h.len() <= H`, `db.len() <= D`)
+fn run_one<'a, 'p, S: Src, P: Pattern<'p>, const H: usize, const D: usize>(
+    s: &mut S,
+    w: Which,
+    h: &'a str,
+    d: P,
+    db: &[u8],
+) -> Facts {
     let hb = h.as_bytes();
     let hl = hb.len();
+    let dl = db.len();
+    let occ = occurrences::<H, D>(hb, db);
     match w {
         Which::Split => {
-            let q = ref_split_seq(hb, db);
+            let q = ref_split_seq::<H>(hb, dl, &occ);
             let it = string::split(h, d);
             chk!(s, same_str(it.remainder(), h), "C06.split.initial_remainder_is_input");
             chk!(s, same_str(it.copy().remainder(), h), "C06.split.copy_keeps_state");
             let k = run_split(s, it, hb, &q, q.n, true);
-            facts(hb, db, &q, k)
+            facts(hb, dl, &occ, &q, k)
         }
         Which::RSplit => {
-            let q = ref_rsplit_seq(hb, db);
+            let q = ref_rsplit_seq::<H>(hb, dl, &occ);
             let it = string::rsplit(h, d);
             chk!(s, same_str(it.remainder(), h), "C06.rsplit.initial_remainder_is_input");
             chk!(s, same_str(it.copy().remainder(), h), "C06.rsplit.copy_keeps_state");
             let k = run_rsplit(s, it, hb, &q, q.n, false);
-            facts(hb, db, &q, k)
+            facts(hb, dl, &occ, &q, k)
         }
         Which::SplitTerminator => {
-            let q = ref_split_seq(hb, db);
+            let q = ref_split_seq::<H>(hb, dl, &occ);
             let it = string::split_terminator(h, d);
             chk!(s, same_str(it.remainder(), h), "C06.split_terminator.initial_remainder_is_input");
             chk!(s, same_str(it.copy().remainder(), h), "C06.split_terminator.copy_keeps_state");
             let k = run_split_terminator(s, it, hb, &q, term_count(&q), true);
-            facts(hb, db, &q, k)
+            facts(hb, dl, &occ, &q, k)
         }
         Which::RSplitTerminator => {
-            let q = ref_rsplit_seq(hb, db);
+            let q = ref_rsplit_seq::<H>(hb, dl, &occ);
             let it = string::rsplit_terminator(h, d);
             chk!(s, same_str(it.remainder(), h), "C06.rsplit_terminator.initial_remainder_is_input");
             chk!(s, same_str(it.copy().remainder(), h), "C06.rsplit_terminator.copy_keeps_state");
             let k = run_rsplit_terminator(s, it, hb, &q, term_count(&q), false);
-            facts(hb, db, &q, k)
+            facts(hb, dl, &occ, &q, k)
         }
         Which::SplitRev => {
-            let q = ref_rsplit_seq(hb, db);
+            let q = ref_rsplit_seq::<H>(hb, dl, &occ);
             // one step from the back of the forward iterator == first step of rsplit
             match string::split(h, d).next_back() {
                 Some((piece, nx)) => {
@@ -280,10 +302,10 @@ fn run_one<'a, 'p, S: Src, P: Pattern<'p>>(s: &mut S, w: Which, h: &'a str, d: P
             let it = string::split(h, d).rev();
             chk!(s, same_str(it.remainder(), h), "C06.split_rev.initial_remainder_is_input");
             let k = run_split_rev(s, it, hb, &q, q.n, false);
-            facts(hb, db, &q, k)
+            facts(hb, dl, &occ, &q, k)
         }
         Which::RSplitRev => {
-            let q = ref_split_seq(hb, db);
+            let q = ref_split_seq::<H>(hb, dl, &occ);
             match string::rsplit(h, d).next_back() {
                 Some((piece, nx)) => {
                     chk!(s, piece_at(hb, piece, q.a[0], q.b[0]), "C06.rsplit.next_back.piece_eq_std_split_first");
@@ -296,7 +318,7 @@ fn run_one<'a, 'p, S: Src, P: Pattern<'p>>(s: &mut S, w: Which, h: &'a str, d: P
             let it = string::rsplit(h, d).rev();
             chk!(s, same_str(it.remainder(), h), "C06.rsplit_rev.initial_remainder_is_input");
             let k = run_rsplit_rev(s, it, hb, &q, q.n, true);
-            facts(hb, db, &q, k)
+            facts(hb, dl, &occ, &q, k)
         }
     }
 }
@@ -305,7 +327,7 @@ fn body_str<S: Src, const H: usize, const D: usize>(s: &mut S, w: Which) -> Fact
     let hs = BStr::<H>::any(s);
     let ds = BStr::<D>::any(s);
     let (h, d) = (hs.as_str(), ds.as_str());
-    run_one(s, w, h, d, d.as_bytes())
+    run_one::<S, &str, H, D>(s, w, h, d, d.as_bytes())
 }
 
 fn body_char<S: Src, const H: usize>(s: &mut S, w: Which) -> Facts {
@@ -313,266 +335,13 @@ fn body_char<S: Src, const H: usize>(s: &mut S, w: Which) -> Facts {
     let c = s.char();
     let mut tmp = [0u8; 4];
     let db = c.encode_utf8(&mut tmp).as_bytes();
-    run_one(s, w, hs.as_str(), c, db)
-}
-
-// ---------------------------------------------------------------------------
-// &str delimiters (empty delimiter included), quick: string<=4 bytes, delimiter<=2 bytes
-
-harness! {
-    /// kind=bounded tier=quick bound="valid UTF-8 string<=4 bytes, &str delimiter<=2 bytes (empty included), iteration to exhaustion (<=6 pieces)"
-    #[kani::unwind(9)]
-    #[kani::stub(konst_kernel::string::non_char_boundary_panic, crate::hlib::stub_non_char_boundary_panic)]
-    fn c06_split_str(s) {
-        let f = body_str::<_, 4, 2>(s, Which::Split);
-        cov!(s, f.dl == 0 && f.hl == 4 && f.n == 4 && f.multibyte && f.steps == 4, "C06.cover.split_empty_delim_multibyte");
-        cov!(s, f.dl == 1 && f.empty_middle && f.steps == f.n, "C06.cover.split_adjacent_delims");
-        cov!(s, f.dl == 2 && f.leading && f.trailing && f.n == 3 && f.steps == 3, "C06.cover.split_leading_and_trailing");
-        cov!(s, f.dl == 2 && f.overlapping, "C06.cover.split_overlapping_occurrences");
-        cov!(s, f.dl == 2 && f.n == 1 && f.hl == 4, "C06.cover.split_absent");
-    }
-}
-
-harness! {
-    /// kind=bounded tier=quick bound="valid UTF-8 string<=4 bytes, &str delimiter<=2 bytes (empty included), iteration to exhaustion (<=6 pieces)"
-    #[kani::unwind(9)]
-    #[kani::stub(konst_kernel::string::non_char_boundary_panic, crate::hlib::stub_non_char_boundary_panic)]
-    fn c06_rsplit_str(s) {
-        let f = body_str::<_, 4, 2>(s, Which::RSplit);
-        cov!(s, f.dl == 0 && f.hl == 4 && f.n == 4 && f.multibyte && f.steps == 4, "C06.cover.rsplit_empty_delim_multibyte");
-        cov!(s, f.dl == 1 && f.empty_middle && f.steps == f.n, "C06.cover.rsplit_adjacent_delims");
-        cov!(s, f.dl == 2 && f.leading && f.trailing && f.n == 3 && f.steps == 3, "C06.cover.rsplit_leading_and_trailing");
-        cov!(s, f.dl == 2 && f.overlapping, "C06.cover.rsplit_overlapping_occurrences");
-    }
-}
-
-harness! {
-    /// kind=bounded tier=quick bound="valid UTF-8 string<=4 bytes, &str delimiter<=2 bytes (empty included), iteration to exhaustion (<=5 pieces)"
-    #[kani::unwind(9)]
-    #[kani::stub(konst_kernel::string::non_char_boundary_panic, crate::hlib::stub_non_char_boundary_panic)]
-    fn c06_split_terminator_str(s) {
-        let f = body_str::<_, 4, 2>(s, Which::SplitTerminator);
-        cov!(s, f.dl == 0 && f.hl == 4 && f.multibyte && f.steps == f.n - 1, "C06.cover.split_terminator_empty_delim");
-        cov!(s, f.dl == 2 && f.trailing && f.steps == f.n - 1 && f.n == 2, "C06.cover.split_terminator_drops_trailing_empty");
-        cov!(s, f.dl == 1 && !f.trailing && f.steps == f.n && f.n == 3, "C06.cover.split_terminator_keeps_nonempty_last");
-        cov!(s, f.dl == 1 && f.trailing && f.empty_middle, "C06.cover.split_terminator_adjacent_trailing");
-        cov!(s, f.hl == 0 && f.dl == 1 && f.steps == 0, "C06.cover.split_terminator_empty_input");
-    }
-}
-
-harness! {
-    /// kind=bounded tier=quick bound="valid UTF-8 string<=4 bytes, &str delimiter<=2 bytes (empty included), iteration to exhaustion (<=5 pieces)"
-    #[kani::unwind(9)]
-    #[kani::stub(konst_kernel::string::non_char_boundary_panic, crate::hlib::stub_non_char_boundary_panic)]
-    fn c06_rsplit_terminator_str(s) {
-        let f = body_str::<_, 4, 2>(s, Which::RSplitTerminator);
-        cov!(s, f.dl == 0 && f.hl == 4 && f.multibyte && f.steps == f.n - 1, "C06.cover.rsplit_terminator_empty_delim");
-        cov!(s, f.dl == 2 && f.leading && f.steps == f.n - 1 && f.n == 2, "C06.cover.rsplit_terminator_drops_leading_empty");
-        cov!(s, f.dl == 1 && !f.leading && f.steps == f.n && f.n == 3, "C06.cover.rsplit_terminator_keeps_nonempty_first");
-        cov!(s, f.dl == 2 && f.overlapping && f.steps == f.n, "C06.cover.rsplit_terminator_overlapping");
-    }
-}
-
-harness! {
-    /// kind=bounded tier=quick bound="valid UTF-8 string<=4 bytes, &str delimiter<=2 bytes (empty included); rev() and one next_back() of split, then iteration to exhaustion"
-    #[kani::unwind(9)]
-    #[kani::stub(konst_kernel::string::non_char_boundary_panic, crate::hlib::stub_non_char_boundary_panic)]
-    fn c06_split_rev_str(s) {
-        let f = body_str::<_, 4, 2>(s, Which::SplitRev);
-        cov!(s, f.dl == 1 && f.n == 3 && f.steps == 3 && f.multibyte, "C06.cover.split_rev_three_pieces");
-        cov!(s, f.dl == 0 && f.n == 4 && f.steps == 4, "C06.cover.split_rev_empty_delim");
-    }
-}
-
-harness! {
-    /// kind=bounded tier=quick bound="valid UTF-8 string<=4 bytes, &str delimiter<=2 bytes (empty included); rev() and one next_back() of rsplit, then iteration to exhaustion"
-    #[kani::unwind(9)]
-    #[kani::stub(konst_kernel::string::non_char_boundary_panic, crate::hlib::stub_non_char_boundary_panic)]
-    fn c06_rsplit_rev_str(s) {
-        let f = body_str::<_, 4, 2>(s, Which::RSplitRev);
-        cov!(s, f.dl == 1 && f.n == 3 && f.steps == 3 && f.multibyte, "C06.cover.rsplit_rev_three_pieces");
-        cov!(s, f.dl == 0 && f.n == 4 && f.steps == 4, "C06.cover.rsplit_rev_empty_delim");
-    }
-}
-
-// ---------------------------------------------------------------------------
-// char delimiters (any char), quick: string<=5 bytes
-
-harness! {
-    /// kind=bounded tier=quick bound="valid UTF-8 string<=5 bytes, char delimiter (any char), iteration to exhaustion (<=6 pieces)"
-    #[kani::unwind(10)]
-    #[kani::stub(konst_kernel::string::non_char_boundary_panic, crate::hlib::stub_non_char_boundary_panic)]
-    fn c06_split_char(s) {
-        let f = body_char::<_, 5>(s, Which::Split);
-        cov!(s, f.dl == 2 && f.n == 3 && f.steps == 3 && f.hl == 5, "C06.cover.split_char2_three_pieces");
-        cov!(s, f.dl == 1 && f.n == 6 && f.steps == 6, "C06.cover.split_char_all_delims");
-        cov!(s, f.dl == 4 && f.leading && f.hl == 5, "C06.cover.split_char4_leading");
-    }
-}
-
-harness! {
-    /// kind=bounded tier=quick bound="valid UTF-8 string<=5 bytes, char delimiter (any char), iteration to exhaustion (<=6 pieces)"
-    #[kani::unwind(10)]
-    #[kani::stub(konst_kernel::string::non_char_boundary_panic, crate::hlib::stub_non_char_boundary_panic)]
-    fn c06_rsplit_char(s) {
-        let f = body_char::<_, 5>(s, Which::RSplit);
-        cov!(s, f.dl == 2 && f.n == 3 && f.steps == 3 && f.hl == 5, "C06.cover.rsplit_char2_three_pieces");
-        cov!(s, f.dl == 1 && f.n == 6 && f.steps == 6, "C06.cover.rsplit_char_all_delims");
-    }
-}
-
-harness! {
-    /// kind=bounded tier=quick bound="valid UTF-8 string<=5 bytes, char delimiter (any char), iteration to exhaustion (<=5 pieces)"
-    #[kani::unwind(10)]
-    #[kani::stub(konst_kernel::string::non_char_boundary_panic, crate::hlib::stub_non_char_boundary_panic)]
-    fn c06_split_terminator_char(s) {
-        let f = body_char::<_, 5>(s, Which::SplitTerminator);
-        cov!(s, f.dl == 2 && f.trailing && f.n == 3 && f.steps == 2 && f.hl == 5, "C06.cover.split_terminator_char_drops_trailing_empty");
-        cov!(s, f.dl == 1 && !f.trailing && f.n == 3 && f.steps == 3, "C06.cover.split_terminator_char_keeps_last");
-    }
-}
-
-harness! {
-    /// kind=bounded tier=quick bound="valid UTF-8 string<=5 bytes, char delimiter (any char), iteration to exhaustion (<=5 pieces)"
-    #[kani::unwind(10)]
-    #[kani::stub(konst_kernel::string::non_char_boundary_panic, crate::hlib::stub_non_char_boundary_panic)]
-    fn c06_rsplit_terminator_char(s) {
-        let f = body_char::<_, 5>(s, Which::RSplitTerminator);
-        cov!(s, f.dl == 2 && f.leading && f.n == 3 && f.steps == 2 && f.hl == 5, "C06.cover.rsplit_terminator_char_drops_leading_empty");
-        cov!(s, f.dl == 1 && !f.leading && f.n == 3 && f.steps == 3, "C06.cover.rsplit_terminator_char_keeps_first");
-    }
-}
-
-harness! {
-    /// kind=bounded tier=quick bound="valid UTF-8 string<=4 bytes, char delimiter (any char); rev()/next_back() of split and of rsplit, then iteration to exhaustion"
-    #[kani::unwind(9)]
-    #[kani::stub(konst_kernel::string::non_char_boundary_panic, crate::hlib::stub_non_char_boundary_panic)]
-    fn c06_rev_char(s) {
-        let fwd = s.bool();
-        let f = body_char::<_, 4>(s, if fwd { Which::SplitRev } else { Which::RSplitRev });
-        cov!(s, fwd && f.dl == 1 && f.n == 3 && f.steps == 3, "C06.cover.split_rev_char");
-        cov!(s, !fwd && f.dl == 1 && f.n == 3 && f.steps == 3, "C06.cover.rsplit_rev_char");
-    }
-}
-
-// ---------------------------------------------------------------------------
-// 3-byte delimiters: the smallest bound at which a delimiter can overlap itself non-trivially
-// ("aab" in "aaab"); inherits the C04 search defect through string::find / rfind.
-
-harness! {
-    /// kind=bounded tier=quick bound="valid UTF-8 string<=4 bytes, &str delimiter of exactly 3 bytes, split and rsplit to exhaustion"
-    #[kani::unwind(9)]
-    #[kani::stub(konst_kernel::string::non_char_boundary_panic, crate::hlib::stub_non_char_boundary_panic)]
-    fn c06_split_str_delim3(s) {
-        let hs = BStr::<4>::any(s);
-        let ds = BStr::<3>::any(s);
-        let (h, d) = (hs.as_str(), ds.as_str());
-        s.assume(d.len() == 3);
-        let fwd = s.bool();
-        let f = run_one(s, if fwd { Which::Split } else { Which::RSplit }, h, d, d.as_bytes());
-        cov!(s, fwd && f.n == 2 && f.hl == 4 && f.steps == 2, "C06.cover.split_delim3_found");
-        cov!(s, !fwd && f.n == 2 && f.hl == 4 && f.steps == 2, "C06.cover.rsplit_delim3_found");
-    }
-}
-
-// ---------------------------------------------------------------------------
-// thorough twins with larger bounds
-
-macro_rules! c06_big {
-    ($name:ident, $w:expr) => {
-        harness! {
-            /// kind=bounded tier=thorough bound="valid UTF-8 string<=5 bytes, &str delimiter<=3 bytes (empty included), iteration to exhaustion (<=7 pieces)"
-            #[kani::unwind(10)]
-            #[kani::stub(konst_kernel::string::non_char_boundary_panic, crate::hlib::stub_non_char_boundary_panic)]
-            fn $name(s) {
-                let f = body_str::<_, 5, 3>(s, $w);
-                cov!(s, f.dl == 3 && f.hl == 5 && f.n == 2, "C06.cover.big_delim3");
-                cov!(s, f.dl == 0 && f.hl == 5, "C06.cover.big_empty_delim");
-            }
-        }
-    };
-}
-c06_big! {c06_split_str_big, Which::Split}
-c06_big! {c06_rsplit_str_big, Which::RSplit}
-c06_big! {c06_split_terminator_str_big, Which::SplitTerminator}
-c06_big! {c06_rsplit_terminator_str_big, Which::RSplitTerminator}
-
-// ---------------------------------------------------------------------------
-// spec adequacy: the reference sequences vs the real std iterators (char delimiters; the empty
-// &str delimiter separately — std's non-empty &str searcher is Two-Way and too heavy for CBMC)
-
-harness! {
-    /// kind=bounded tier=thorough bound="spec adequacy: ref_split_seq/ref_rsplit_seq/term_count vs str::split/rsplit/split_terminator with char delimiters, string<=5 bytes"
-    #[kani::unwind(10)]
-    #[kani::stub(konst_kernel::string::non_char_boundary_panic, crate::hlib::stub_non_char_boundary_panic)]
-    fn c06_spec_vs_std_char(s) {
-        let hs = BStr::<5>::any(s);
-        let c = s.char();
-        let h = hs.as_str();
-        let hb = h.as_bytes();
-        let mut tmp = [0u8; 4];
-        let db = c.encode_utf8(&mut tmp).as_bytes();
-        let q = ref_split_seq(hb, db);
-        let r = ref_rsplit_seq(hb, db);
-        let mut k = 0;
-        for p in h.split(c) {
-            chk!(s, k < q.n && is_subslice_at(hb, p.as_bytes(), q.a[k], q.b[k]), "SPEC.ref_split_seq.piece_eq_std_split_char");
-            k += 1;
-        }
-        chk!(s, k == q.n, "SPEC.ref_split_seq.count_eq_std_split_char");
-        let mut k = 0;
-        for p in h.rsplit(c) {
-            chk!(s, k < r.n && is_subslice_at(hb, p.as_bytes(), r.a[k], r.b[k]), "SPEC.ref_rsplit_seq.piece_eq_std_rsplit_char");
-            k += 1;
-        }
-        chk!(s, k == r.n, "SPEC.ref_rsplit_seq.count_eq_std_rsplit_char");
-        let mut k = 0;
-        for p in h.split_terminator(c) {
-            chk!(s, k < q.n && is_subslice_at(hb, p.as_bytes(), q.a[k], q.b[k]), "SPEC.term_count.piece_eq_std_split_terminator_char");
-            k += 1;
-        }
-        chk!(s, k == term_count(&q), "SPEC.term_count.count_eq_std_split_terminator_char");
-        cov!(s, q.n == 3 && db.len() == 2 && hb.len() == 5, "SPEC.cover.split_char2_three_pieces");
-        cov!(s, q.n == 2 && term_count(&q) == 1, "SPEC.cover.terminator_drops_empty");
-    }
-}
-
-harness! {
-    /// kind=bounded tier=thorough bound="spec adequacy: the empty-delimiter branch of ref_split_seq/ref_rsplit_seq/term_count vs str::split(\"\")/rsplit(\"\")/split_terminator(\"\"), string<=4 bytes"
-    #[kani::unwind(9)]
-    #[kani::stub(konst_kernel::string::non_char_boundary_panic, crate::hlib::stub_non_char_boundary_panic)]
-    fn c06_spec_vs_std_empty(s) {
-        let hs = BStr::<4>::any(s);
-        let h = hs.as_str();
-        let hb = h.as_bytes();
-        let q = ref_split_seq(hb, &[]);
-        let r = ref_rsplit_seq(hb, &[]);
-        let mut k = 0;
-        for p in h.split("") {
-            chk!(s, k < q.n && is_subslice_at(hb, p.as_bytes(), q.a[k], q.b[k]), "SPEC.ref_split_seq.piece_eq_std_split_empty");
-            k += 1;
-        }
-        chk!(s, k == q.n, "SPEC.ref_split_seq.count_eq_std_split_empty");
-        let mut k = 0;
-        for p in h.rsplit("") {
-            chk!(s, k < r.n && is_subslice_at(hb, p.as_bytes(), r.a[k], r.b[k]), "SPEC.ref_rsplit_seq.piece_eq_std_rsplit_empty");
-            k += 1;
-        }
-        chk!(s, k == r.n, "SPEC.ref_rsplit_seq.count_eq_std_rsplit_empty");
-        let mut k = 0;
-        for p in h.split_terminator("") {
-            chk!(s, k < q.n && is_subslice_at(hb, p.as_bytes(), q.a[k], q.b[k]), "SPEC.term_count.piece_eq_std_split_terminator_empty");
-            k += 1;
-        }
-        chk!(s, k == term_count(&q), "SPEC.term_count.count_eq_std_split_terminator_empty");
-        cov!(s, hb.len() == 4 && q.n == 4 && hb[0] >= 0xC2, "SPEC.cover.empty_delim_multibyte");
-    }
+    run_one::<S, char, H, 4>(s, w, hs.as_str(), c, db)
 }
 
 // EXPERIMENTS (to be removed)
 harness! {
     /// kind=bounded tier=quick bound="x"
-    #[kani::unwind(8)]
+    #[kani::unwind(7)]
     #[kani::stub(konst_kernel::string::non_char_boundary_panic, crate::hlib::stub_non_char_boundary_panic)]
     fn c06_x1(s) {
         let f = body_char::<_, 3>(s, Which::Split);
@@ -581,7 +350,7 @@ harness! {
 }
 harness! {
     /// kind=bounded tier=quick bound="x"
-    #[kani::unwind(8)]
+    #[kani::unwind(7)]
     #[kani::stub(konst_kernel::string::non_char_boundary_panic, crate::hlib::stub_non_char_boundary_panic)]
     fn c06_x2(s) {
         let f = body_str::<_, 3, 1>(s, Which::Split);
@@ -590,7 +359,7 @@ harness! {
 }
 harness! {
     /// kind=bounded tier=quick bound="x"
-    #[kani::unwind(8)]
+    #[kani::unwind(7)]
     #[kani::stub(konst_kernel::string::non_char_boundary_panic, crate::hlib::stub_non_char_boundary_panic)]
     fn c06_x3(s) {
         let f = body_str::<_, 3, 2>(s, Which::Split);
@@ -602,7 +371,7 @@ harness! {
     #[kani::unwind(8)]
     #[kani::stub(konst_kernel::string::non_char_boundary_panic, crate::hlib::stub_non_char_boundary_panic)]
     fn c06_x4(s) {
-        let f = body_str::<_, 3, 2>(s, Which::SplitTerminator);
+        let f = body_str::<_, 4, 2>(s, Which::Split);
         cov!(s, f.n == 3, "C06.cover.x4");
     }
 }
